@@ -557,8 +557,11 @@ def run(ctx):
     for fmt in FORMATS:
         res = ctx.tlc("MC_C02", tag="MC_C02_" + fmt, spec="Spec",
                       constants={"Fmt": fmt, "MaxRecords": 2 if quick else 3, "WrapWidths": [1, 2, 4] if quick else [1, 2, 3, 4, 10]},
-                      invariants=["EntriesAreRecords", "PhasedInverse", "Emit"], coverage=True, workers=4)
-        ctx.require_actions(res, "MC_C02", ["AddRecord", "Close"])
+                      invariants=["EntriesAreRecords", "PhasedInverse", "Emit"], coverage=fmt in ("bed3", "gff"), workers=4)
+        if fmt in ("bed3", "gff"):
+            # the vacuity guard (every action taken) needs TLC's coverage statistics, which cost about 20 s per run on this module: two formats
+            # stand for all (the actions are the same for every format; gff also takes AddComment)
+            ctx.require_actions(res, "MC_C02", ["AddRecord", "Close"] + (["AddComment"] if fmt == "gff" else []))
         vectors += res.vectors
     for i, v in enumerate(vectors):
         v["_id"] = i
